@@ -1221,6 +1221,31 @@ func (e *env) freshReaderDelivers(next int64) bool {
 	return got >= 1 && !bad
 }
 
+// storeStacks: the stacks of the goroutines that are inside the cache packages right now (for a
+// witness: where a reader that neither follows nor ends is waiting).
+func storeStacks() []string {
+	buf := make([]byte, 4<<20)
+	buf = buf[:runtime.Stack(buf, true)]
+	var out []string
+	for _, g := range strings.Split(string(buf), "\n\n") {
+		if strings.Contains(g, "redis-GunYu/pkg/store") || strings.Contains(g, "redis-GunYu/pkg/io/pipe") {
+			var fr []string
+			for _, l := range strings.Split(g, "\n") {
+				if !strings.HasPrefix(l, "\t") {
+					fr = append(fr, strings.TrimSpace(l))
+				} else if i := strings.LastIndex(l, "/"); i >= 0 {
+					fr[len(fr)-1] += " @" + strings.Fields(l[i+1:])[0]
+				}
+			}
+			if len(fr) > 14 {
+				fr = fr[:14]
+			}
+			out = append(out, strings.Join(fr, " <- "))
+		}
+	}
+	return out
+}
+
 // judgeSurvivors: clause (ii) for stream readers that lived through a re-opening of the cache which
 // kept the data (the tool reconnects to its source: the disk cache is re-indexed, the data stays
 // filed under the same replication id or - after a fail-over answered with +CONTINUE <new id> - is
@@ -1269,7 +1294,7 @@ func (e *env) judgeSurvivors(surv []*rdr, kind string) {
 			}
 			e.violate(fmt.Sprintf("ii-live|%s|survivor-left-waiting|%s|aof", e.be(), kind),
 				fmt.Sprintf("(ii) a reader that was open when the cache was re-opened (%s, data kept, new writer continued at the right edge) neither followed the new writer nor ended: it stands at offset %d of %d and polls for a segment file that does not exist under %s; %s", kind, next, f.right, strings.TrimPrefix(r.dir, e.base), second),
-				map[string]any{"reader": r.describe(), "files": e.listFiles(), "model": fmt.Sprintf("%+v", f)})
+				map[string]any{"reader": r.describe(), "files": e.listFiles(), "model": fmt.Sprintf("%+v", f), "goroutines_inside_the_cache": storeStacks()})
 			return
 		default:
 			e.inconclusive("watchdog: survivor %s delivered %d of %d bytes, still open, no progress (%s)", r.describe(), r.rc.Pos(), want, kind)
